@@ -542,6 +542,12 @@ RETRY:
 		}
 	}
 
+	if !allValidSignatures {
+		// At least one signature failed verification.
+		// Like the future vote handlers, do not apply any part of the message.
+		return tmconsensus.HandleVoteProofsBadSignature
+	}
+
 	if len(voteUpdates) == 0 {
 		// We must have been unable to build the sign bytes or signature proof.
 		// Ignore the message for now.
@@ -898,6 +904,12 @@ RETRY:
 			Proof:       fullProof,
 			PrevVersion: curPrecommitState.PrecommitBlockVersions[blockHash],
 		}
+	}
+
+	if !allValidSignatures {
+		// At least one signature failed verification.
+		// Like the future vote handlers, do not apply any part of the message.
+		return tmconsensus.HandleVoteProofsBadSignature
 	}
 
 	if len(voteUpdates) == 0 {
